@@ -105,5 +105,8 @@ class SeqCountProvider(ProvidesSeqCount):
 
     def get_and_increment(self) -> int:
         curr_count = self.count
-        self.count += 1
+        if self.count >= pow(2, self.max_bit_width) - 1:
+            self.count = 0
+        else:
+            self.count += 1
         return curr_count
